@@ -211,6 +211,20 @@ def OPTIONS():
         return None if got == want else "annotation texts %r, expected %r" % (sorted(got)[:3], sorted(want)[:3])
     add("-af-location", ["-a", "-af", "lat,lon,elev,location"], ("map", "standard-loc", "mapimpact", "obsfcst-loc"), each_axis(af_location))
 
+    # options spread over two --config files ("This flag can appear multiple times"): all of them take effect
+    cd = os.path.join(H.scratch(), "c17cfg")
+    os.makedirs(cd, exist_ok=True)
+    f1, f2 = os.path.join(cd, "style.txt"), os.path.join(cd, "figure.txt")
+    with open(f1, "w") as fh:
+        fh.write("-title My_title\n")
+    with open(f2, "w") as fh:
+        fh.write("-xlabel The_x\n-ylabel The_y\n")
+
+    def two_configs(ax, f, h, i):
+        got = (ax.get_title(), ax.get_xlabel(), ax.get_ylabel())
+        return None if got == ("My title", "The_x", "The_y") else "title / labels from two --config files are %r" % (got,)
+    add("--config-x2", ["--config", f1, "--config", f2], ("standard", "multi"), each_axis(two_configs))
+
     def clim(fig, h, i):
         out = []
         for ax in main_axes(fig, h):
